@@ -67,7 +67,7 @@ func plans(points []gspec.IntPoint, k int) []gspec.Plan {
 func TestCheck(t *testing.T) {
 	cfg := mon.Load(ID)
 	rep := mon.NewReporter(cfg, "fault_enumeration",
-		"generated specs (all three modes, nested graphs, state, self-interrupting nodes) × every subset of <=2 (quick) / <=3 (thorough, capped) interrupt points at every nesting level, including direct successors of START, nodes reached through branches, the last node before END and nodes inside nested graphs; every history is driven to completion through a byte-only store. Trace monitor over the per-call execution logs, the returned errors, the store accesses and the task-hook events: (1) a node configured interrupt-before executes at most once per call and only in a call that follows an interrupt which reported it at its nesting level; (2) after an interrupt-after node has completed and been collected no further task of that graph is started, and unless the call finished the run, the call returns an interrupt listing it; (3) every interrupt is an error from which ExtractInterruptInfo yields before/after/rerun/sub-graph lists that are consistent with the configuration and with what executed, and a state iff the graph has one, whose counter continues the handler history; (4) with a checkpoint id exactly one Set per interrupted call and none otherwise; without an id no store access at all. Non-trivial: a history with >=1 interrupt; distinct = (spec, input, plan). PLUS a typed sub-workload (the last 14 (quick) / 28 (thorough) cases of every shard, typed_test.go; engine shared with C05): typed graphs and workflows (struct values behind field mappings, any->T edges, input keys, nil interface values, schema.Message values, deep nesting) with every single interrupt point, sampled pairs and self-interrupting nodes, each history in one form (Invoke only / Stream only, sometimes entered through Collect/Transform), with and without checkpoint id: every call finishes or returns an extractable interrupt, one Set iff interrupted, no store access without id, info lists consistent with configuration and log, state carried iff declared and owned by that graph, interrupt-before nodes run only after being reported.",
+		"generated specs (all three modes, nested graphs, state, self-interrupting nodes) × every subset of <=2 (quick) / <=3 (thorough, capped) interrupt points at every nesting level, including direct successors of START, nodes reached through branches, the last node before END and nodes inside nested graphs; every history is driven to completion through a byte-only store. Trace monitor over the per-call execution logs, the returned errors, the store accesses and the task-hook events: (1) a node configured interrupt-before executes at most once per call and only in a call that follows an interrupt which reported it at its nesting level; (2) after an interrupt-after node has completed and been collected no further task of that graph is started, and unless the call finished the run, the call returns an interrupt listing it; (3) every interrupt is an error from which ExtractInterruptInfo yields before/after/rerun/sub-graph lists that are consistent with the configuration and with what executed, and a state iff the graph has one, whose counter continues the handler history; (4) with a checkpoint id exactly one Set per interrupted call and none otherwise; without an id no store access at all. Non-trivial: a history with >=1 interrupt; distinct = (spec, input, plan). PLUS a typed sub-workload (the last 14 (quick) / 28 (thorough) cases of every shard, typed_test.go; engine shared with C05): typed graphs and workflows (struct values behind field mappings, any->T edges, input keys, nil interface values, schema.Message values, deep nesting) with every single interrupt point, sampled pairs and self-interrupting nodes, each history in one form (Invoke only / Stream only, sometimes entered through Collect/Transform), with and without checkpoint id: every call finishes or returns an extractable interrupt, one Set iff interrupted, no store access without id, info lists consistent with configuration and log, state carried iff declared and owned by that graph, interrupt-before nodes run only after being reported. PLUS a sub-workload 'run inside a node' (the last 12 (quick) / 30 (thorough) cases of every shard, inside_node_test.go): generated specs x sampled plans of <=2 interrupt points (and self-interrupting nodes), compiled with their own store and driven to completion with WithCheckPointID by code that executes inside a node of another running graph and passes on the context it was handed - a Lambda (four forms), a tool of a ToolsNode (invokable / streamable), a callback handler (start / end) - in a Graph (both trigger modes), a Chain or a Workflow, 1-2 outer nesting levels, outer run by Invoke or Stream, one outer run per call or the whole history inside one node execution: the same trace monitor, plus: the history completes, no resumed call executes a body on the resume call's input, the store holds the checkpoint under the supplied id and nothing else.",
 		[]string{"what a resumed run computes is C05's business; here only the interrupt protocol is judged"},
 		300)
 	defer func() {
@@ -80,7 +80,15 @@ func TestCheck(t *testing.T) {
 	n := int64(cfg.Pick(60, 80))
 	// the last cases of every shard belong to the typed sub-workload (typed_test.go)
 	rep.Require("typed_interrupt_infos_checked", 50)
-	rep.Cases(n+typedCasesPerShard(cfg), func(idx int64, rng *mon.Rand) {
+	// ... and the cases after those to the histories driven from inside a node of another graph (inside_node_test.go)
+	rep.Require("inside_node_interrupts_checked", 200)
+	rep.Require("inside_node_resumes_checked", 200)
+	nt := typedCasesPerShard(cfg)
+	rep.Cases(n+nt+insideNodeCasesPerShard(cfg), func(idx int64, rng *mon.Rand) {
+		if idx >= n+nt {
+			insideNodeCase(ctx, rep, rng, cfg, idx-n-nt)
+			return
+		}
 		if idx >= n {
 			typedCase(ctx, rep, rng, cfg, idx-n)
 			return
@@ -187,19 +195,33 @@ func onePlan(ctx context.Context, rep *mon.Reporter, spec *gspec.GraphSpec, in g
 	}
 	maxCalls := 4*(len(ref.Execs)+len(plan)+2) + 4
 	h := gspec.RunHistory(ctx, ps, r, store, in, plan, gspec.HistoryOpts{Paras: paras, CheckPoint: withID, MaxCalls: maxCalls})
-	rep.AddEvaluations(int64(len(h.Calls)))
 	rep.Count("plans_run", 1)
+	judgeHistory(rep, ID, ps, spec, in, ref, plan, paras, withID, h, sample, nil)
+}
+
+// judgeHistory applies the trace monitor to one history of calls on the plan-applied spec ps. pfx is the
+// prefix of the violation signatures (ID for top-level runs); more is added to the witness and the detail.
+func judgeHistory(rep *mon.Reporter, pfx string, ps, spec *gspec.GraphSpec, in gspec.V, ref *gspec.RefResult, plan gspec.Plan, paras []string, withID bool, h *gspec.History, sample bool, more map[string]any) bool {
+	ID := pfx // every signature below starts with the prefix
+	rep.AddEvaluations(int64(len(h.Calls)))
 	wit := map[string]any{"spec": ps, "input": in, "plan": plan.String(), "paradigms": paras, "with_checkpoint_id": withID}
+	for k, v := range more {
+		wit[k] = v
+	}
 	extra := func() string {
-		return fmt.Sprintf("input=%s paradigms=%v checkpoint-id=%v\nreference (uninterrupted): %s\n%s", gspec.Canon(in), paras, withID, ref.String(), h.Render())
+		s := fmt.Sprintf("input=%s paradigms=%v checkpoint-id=%v\nreference (uninterrupted): %s\n%s", gspec.Canon(in), paras, withID, ref.String(), h.Render())
+		if len(more) > 0 {
+			s = fmt.Sprintf("%s\n%s", gspec.Canon(more), s)
+		}
+		return s
 	}
 	if h.Stuck != "" {
 		rep.Violation(ID+"/hang/"+h.Stuck, "a call of the history can never finish\n"+h.StuckDetail+"\n"+extra(), wit)
-		return
+		return false
 	}
 	if h.Inconclusive {
 		rep.Inconclusive("watchdog fired while goroutines were active")
-		return
+		return false
 	}
 	paths := map[string][]string{}
 	specs := map[string]*gspec.GraphSpec{}
@@ -216,27 +238,27 @@ func onePlan(ctx context.Context, rep *mon.Reporter, spec *gspec.GraphSpec, in g
 		// ---- (3) interrupt errors are extractable
 		if !c.Interrupted && c.Out.Err != nil && gspec.IsInterruptErrorText(c.Out.Err) {
 			rep.Violation(ID+"/interrupt-not-extractable", "the call failed with an interrupt from which ExtractInterruptInfo yields nothing: "+c.Out.Err.Error()+"\n"+extra(), wit)
-			return
+			return false
 		}
 		// nothing in these histories is made to fail and the uninterrupted reference succeeds: a call
 		// either finishes the run or stops at an interrupt point, and then it must return the interrupt
 		if !c.Interrupted && (c.Out.Err != nil || c.Out.Panic != nil) {
 			rep.Violation(ID+"/call-failed-instead-of-returning-an-interrupt", fmt.Sprintf("call %d (paradigm %s) neither finished the run nor returned an error from which the interrupt information can be extracted: err=%v panic=%v\n%s", j, c.Para, c.Out.Err, c.Out.Panic, extra()), wit)
-			return
+			return false
 		}
 		// ---- (4) store accesses
 		if withID {
 			if c.Interrupted && c.StoreSets != 1 {
 				rep.Violation(ID+"/store/sets-on-interrupt", fmt.Sprintf("call %d returned an interrupt but wrote the checkpoint %d times\n%s", j, c.StoreSets, extra()), wit)
-				return
+				return false
 			}
 			if !c.Interrupted && c.StoreSets != 0 {
 				rep.Violation(ID+"/store/set-without-interrupt", fmt.Sprintf("call %d did not return an interrupt but wrote a checkpoint (%d Set)\n%s", j, c.StoreSets, extra()), wit)
-				return
+				return false
 			}
 		} else if c.StoreSets != 0 || c.StoreGets != 0 {
 			rep.Violation(ID+"/store/access-without-id", fmt.Sprintf("no checkpoint id was supplied but the store was accessed (sets=%d gets=%d)\n%s", c.StoreSets, c.StoreGets, extra()), wit)
-			return
+			return false
 		}
 		rep.Count("store_access_checks", 1)
 		// ---- (1) interrupt-before
@@ -263,7 +285,7 @@ func onePlan(ctx context.Context, rep *mon.Reporter, spec *gspec.GraphSpec, in g
 					where += "/nested"
 				}
 				rep.Violation(ID+"/before-node-ran-without-interrupt/"+where, fmt.Sprintf("node %s is configured interrupt-before but began executing in call %d without a preceding interrupt that reported it (executions in this call: %d)\n%s", e.Path, j, perNode[e.Node], extra()), wit)
-				return
+				return false
 			}
 			rep.Count("before_points_honoured", 1)
 		}
@@ -271,7 +293,7 @@ func onePlan(ctx context.Context, rep *mon.Reporter, spec *gspec.GraphSpec, in g
 		// ---- (2) interrupt-after
 		for _, n := range c.HookNotes {
 			rep.Violation(ID+"/after-node/successor-started", n+"\n"+extra(), wit)
-			return
+			return false
 		}
 		for _, e := range c.Execs {
 			g := specs[owner[e.Node]]
@@ -296,7 +318,7 @@ func onePlan(ctx context.Context, rep *mon.Reporter, spec *gspec.GraphSpec, in g
 			}
 			if !contains(inf.AfterNodes, e.Node) {
 				rep.Violation(ID+"/after-node/not-reported", fmt.Sprintf("node %s (interrupt-after) completed in call %d, the call returned an interrupt, but the node is not in the after-list at its level\n%s", e.Path, j, extra()), wit)
-				return
+				return false
 			}
 			rep.Count("after_points_honoured", 1)
 		}
@@ -308,7 +330,7 @@ func onePlan(ctx context.Context, rep *mon.Reporter, spec *gspec.GraphSpec, in g
 					cl = m[:i]
 				}
 				rep.Violation(ID+"/info/"+cl, m+"\n"+extra(), wit)
-				return
+				return false
 			}
 			rep.Count("interrupt_infos_checked", 1)
 		}
@@ -319,11 +341,16 @@ func onePlan(ctx context.Context, rep *mon.Reporter, spec *gspec.GraphSpec, in g
 		}
 	}
 	if len(h.Calls) > 1 {
-		rep.NonTrivial(spec.Digest() + "|" + gspec.Canon(in) + "|" + plan.String() + fmt.Sprint(paras, withID))
+		d := spec.Digest() + "|" + gspec.Canon(in) + "|" + plan.String() + fmt.Sprint(paras, withID)
+		if len(more) > 0 {
+			d += "|" + gspec.Canon(more)
+		}
+		rep.NonTrivial(d)
 	}
 	if sample {
 		rep.Sample(map[string]any{"spec": ps, "input": in, "plan": plan.String(), "history": h.Render()})
 	}
+	return true
 }
 
 // checkInfo validates one InterruptInfo against the configured spec (recursively).
